@@ -55,6 +55,12 @@ ReplaceStr(s, old, new, n) ==
   IF n = 0 \/ Len(s) < Len(old) THEN s
   ELSE IF SubSeq(s, 1, Len(old)) = old THEN new \o ReplaceStr(SubSeq(s, Len(old) + 1, Len(s)), old, new, IF n < 0 THEN n ELSE n - 1)
   ELSE SubSeq(s, 1, 1) \o ReplaceStr(SubSeq(s, 2, Len(s)), old, new, n)
+\* an empty old matches at the beginning of the string and after every character: up to Len(s) + 1 insertions
+RECURSIVE InsertEvery(_, _, _)
+InsertEvery(s, new, k) ==
+  IF k = 0 THEN s
+  ELSE IF s = "" THEN new
+  ELSE new \o SubSeq(s, 1, 1) \o InsertEvery(SubSeq(s, 2, Len(s)), new, k - 1)
 \* text of a value inside fn:string:concat
 TextOf(v) == IF IsStr(v) \/ IsName(v) THEN v[2] ELSE IF IsNum(v) THEN ToString(v[2]) ELSE "?"
 Textual(v) == IsStr(v) \/ IsName(v) \/ IsNum(v)
@@ -98,14 +104,31 @@ ApplyFn(f, a) ==
     [] f = "fn:map:get" -> IF Len(a) = 2 /\ IsMap(a[1]) THEN LookupEntry(a[1][2], a[2]) ELSE ERR
     [] f = "fn:struct:get" -> IF Len(a) = 2 /\ IsStruct(a[1]) THEN LookupEntry(a[1][2], a[2]) ELSE ERR
     [] f = "fn:string:concat" -> IF \A i \in DOMAIN a : Textual(a[i]) THEN Str(ConcatText(a, 1)) ELSE ERR
-    [] f = "fn:string:replace" -> IF Len(a) = 4 /\ IsStr(a[1]) /\ IsStr(a[2]) /\ IsStr(a[3]) /\ IsNum(a[4]) /\ a[2][2] # ""
-                                 THEN Str(ReplaceStr(a[1][2], a[2][2], a[3][2], a[4][2])) ELSE ERR
+    [] f = "fn:string:replace" -> IF Len(a) = 4 /\ IsStr(a[1]) /\ IsStr(a[2]) /\ IsStr(a[3]) /\ IsNum(a[4])
+                                 THEN (IF a[2][2] = ""
+                                       THEN Str(InsertEvery(a[1][2], a[3][2], IF a[4][2] < 0 \/ a[4][2] > Len(a[1][2]) + 1 THEN Len(a[1][2]) + 1 ELSE a[4][2]))
+                                       ELSE Str(ReplaceStr(a[1][2], a[2][2], a[3][2], a[4][2])))
+                                 ELSE ERR
     [] f = "fn:name:to_string" -> IF Len(a) = 1 /\ IsName(a[1]) THEN Str(a[1][2]) ELSE ERR
     [] f = "fn:name:root" -> IF Len(a) = 1 /\ IsName(a[1]) THEN Nm(NameRoot(a[1][2])) ELSE ERR
     [] f = "fn:name:tip" -> IF Len(a) = 1 /\ IsName(a[1]) THEN Nm(NameTip(a[1][2])) ELSE ERR
     [] f = "fn:name:list" -> IF Len(a) = 1 /\ IsName(a[1]) THEN List(NamePartsFrom(a[1][2], 1)) ELSE ERR
     [] f = "fn:number:to_string" -> IF Len(a) = 1 /\ IsNum(a[1]) THEN Str(ToString(a[1][2])) ELSE ERR
     [] f = "fn:some" -> IF Len(a) = 1 THEN a[1] ELSE ERR  \* placeholder: fn:some is not generated
+    \* instants and durations are integers on one timeline (nanoseconds in the code): an instant plus a duration is an
+    \* instant, the difference of two instants a duration; conversions to and from plain numbers keep the integer
+    [] f = "fn:time:add" -> IF Len(a) = 2 /\ IsTime(a[1]) /\ IsDur(a[2]) THEN Tm(a[1][2] + a[2][2]) ELSE ERR
+    [] f = "fn:time:sub" -> IF Len(a) = 2 /\ IsTime(a[1]) /\ IsTime(a[2]) THEN Du(a[1][2] - a[2][2]) ELSE ERR
+    [] f = "fn:duration:add" -> IF Len(a) = 2 /\ IsDur(a[1]) /\ IsDur(a[2]) THEN Du(a[1][2] + a[2][2]) ELSE ERR
+    [] f = "fn:duration:mult" -> IF Len(a) = 2 /\ IsDur(a[1]) /\ IsNum(a[2]) THEN Du(a[1][2] * a[2][2]) ELSE ERR
+    [] f = "fn:duration:nanos" -> IF Len(a) = 1 /\ IsDur(a[1]) THEN Num(a[1][2]) ELSE ERR
+    [] f = "fn:duration:from_nanos" -> IF Len(a) = 1 /\ IsNum(a[1]) THEN Du(a[1][2]) ELSE ERR
+    [] f = "fn:time:to_unix_nanos" -> IF Len(a) = 1 /\ IsTime(a[1]) THEN Num(a[1][2]) ELSE ERR
+    [] f = "fn:time:from_unix_nanos" -> IF Len(a) = 1 /\ IsNum(a[1]) THEN Tm(a[1][2]) ELSE ERR
+    \* an interval value is a pair (start, end)
+    [] f = "fn:interval:start" -> IF Len(a) = 1 /\ IsPair(a[1]) THEN a[1][2] ELSE ERR
+    [] f = "fn:interval:end" -> IF Len(a) = 1 /\ IsPair(a[1]) THEN a[1][3] ELSE ERR
+    [] f = "fn:interval:duration" -> IF Len(a) = 1 /\ IsPair(a[1]) /\ IsTime(a[1][2]) /\ IsTime(a[1][3]) THEN Du(a[1][3][2] - a[1][2][2]) ELSE ERR
     [] OTHER -> ERR
 
 (***************************************************************************)
@@ -117,6 +140,23 @@ CmpHolds(op, l, r) ==
     [] op = "le" -> l[2] <= r[2]
     [] op = "gt" -> l[2] > r[2]
     [] op = "ge" -> l[2] >= r[2]
+
+(***************************************************************************)
+(* Interval predicates (readthedocs/temporal.md, "Allen's interval          *)
+(* relations"), on intervals <<s, e>> with s <= e on one integer timeline. *)
+(***************************************************************************)
+IntervalPreds == {":interval:before", ":interval:after", ":interval:meets", ":interval:overlaps", ":interval:during",
+                  ":interval:contains", ":interval:starts", ":interval:finishes", ":interval:equals"}
+IntervalHolds(f, x, y) ==
+  CASE f = ":interval:before"   -> x[2] < y[1]                     \* T1 ends before T2 starts
+    [] f = ":interval:after"    -> x[1] > y[2]                     \* T1 starts after T2 ends
+    [] f = ":interval:meets"    -> x[2] = y[1]                     \* T1 ends exactly when T2 starts
+    [] f = ":interval:overlaps" -> x[1] <= y[2] /\ y[1] <= x[2]    \* T1 and T2 share some time
+    [] f = ":interval:during"   -> y[1] <= x[1] /\ x[2] <= y[2]    \* T1 is contained within T2
+    [] f = ":interval:contains" -> x[1] <= y[1] /\ y[2] <= x[2]    \* T1 contains T2
+    [] f = ":interval:starts"   -> x[1] = y[1]                     \* T1 and T2 start together
+    [] f = ":interval:finishes" -> x[2] = y[2]                     \* T1 and T2 end together
+    [] f = ":interval:equals"   -> x = y
 
 (***************************************************************************)
 (* Reducers: folds over a BAG of rows, given as a sequence of argument     *)
@@ -140,6 +180,11 @@ Reduce(f, vals) ==
     [] f = "fn:count_distinct" -> Num(Cardinality(Ran(vals)))
     [] f = "fn:collect_distinct" -> <<"set", Ran(vals), Cardinality(Ran(vals))>>   \* read as a set (order is unspecified)
     [] f = "fn:avg"   -> Ratio(SumSeq(vals, 1), Len(vals))  \* exact rational in lowest terms
+    [] f = "fn:time:max" -> Tm(MaxOf({vals[i][2] : i \in DOMAIN vals}))
+    [] f = "fn:time:min" -> Tm(MinOf({vals[i][2] : i \in DOMAIN vals}))
+    [] f = "fn:duration:max" -> Du(MaxOf({vals[i][2] : i \in DOMAIN vals}))
+    [] f = "fn:duration:min" -> Du(MinOf({vals[i][2] : i \in DOMAIN vals}))
+    [] f = "fn:duration:sum" -> Du(SumSeq(vals, 1))
     [] OTHER -> ERR
 
 =============================================================================
